@@ -205,3 +205,51 @@ def freeze_suite(tier, seed, sid0):
             sc["tag"] = {"suite": "freeze"}
             out.append(sc)
     return out, {"replayed": len(out)}
+
+
+def dual_suite(tier, seed, sid0):
+    """C17: ordinary operation histories (every operation, chunk sizes up to a little beyond the length, with
+    destructor and allocation accounting) plus seeded concurrent runs; executed by the harness built with
+    debug assertions + overflow checks and by the one built without."""
+    rng = random.Random(seed * 53 + 11)
+    per = 60 if tier == "quick" else 1200
+    out = []
+    for kind in ALL:
+        for j in range(per):
+            sid = sid0 + len(out)
+            if j % 3 == 2:
+                sc = gen.concurrent(rng, sid, kind, policy="rand")
+            elif j % 3 == 1:
+                sc = gen.sequential(rng, sid, kind, p_skip=0.15)
+            else:
+                sc = gen.composite(rng, sid, kind)
+                sc["policy"] = "rand"
+            sc["tag"] = {"suite": "dual"}
+            out.append(sc)
+    return out, {"replayed": len(out)}
+
+
+TWINS = [("cloned_slice", "slice"), ("copied_slice", "numslice"), ("cloned_iter", "refiter"), ("copied_iter", "numrefiter")]
+
+
+def twin_suite(tier, seed, sid0):
+    """C13: the same history / schedule on a cloned()/copied() adaptor and on the underlying iterator."""
+    rng = random.Random(seed * 97 + 29)
+    per = 150 if tier == "quick" else 3000
+    a, b = [], []
+    for ka, kb in TWINS:
+        for j in range(per):
+            sid = sid0 + len(a)
+            if j % 3 == 0:
+                sc = gen.concurrent(rng, sid, ka, p_skip=0.1, policy="rand")
+            elif j % 3 == 1:
+                sc = gen.sequential(rng, sid, ka, p_skip=0.15)
+            else:
+                sc = gen.composite(rng, sid, ka)
+                sc["policy"] = "rand"
+            sc["tag"] = {"suite": "twin"}
+            sc2 = dict(sc)
+            sc2["kind"] = kb
+            a.append(sc)
+            b.append(sc2)
+    return (a, b), {"replayed": len(a) * 2}
